@@ -202,6 +202,21 @@ CLAIMED = {
              "and is decided for the implementation by the paired runs.",
         technique="Lean 4 proof + independent expected-response spec evaluated on real output + paired runs",
         ref="6 C15"),
+    "C16": dict(
+        text="Lean 4 theorems about the model of the helpers: binary(x, s) is accepted iff s occurs and is "
+             "then 1 exactly where x = s, the default success is the smallest value (C16_binary_*), "
+             "offset contributes its argument unchanged / broadcasts a constant, I is the identity, prop "
+             "is accepted iff successes and trials are integers with successes <= trials "
+             "(C16_prop_valid_iff); the alias groups (B = binary, p = prop = proportion, standardize = "
+             "scale) are read from the live registry by object identity and tied by `decide`. Spec.C16 is "
+             "evaluated by the driver on columns of real designs at training time and on new frames "
+             "(offset and prop trials recomputed from the new frame); alias pairs incl. T/S vs C are "
+             "compared as paired real runs.",
+        note="Trusted: Lean kernel; translator (live registry introspection); numpy broadcasting. The "
+             "prediction-time clause for binary is defect D14 (binary is not stateful), recorded and "
+             "classified under C06.",
+        technique="Lean 4 proof + registry tie (decide) + pointwise spec evaluated on real columns + paired runs",
+        ref="6 C16"),
     "C11": dict(
         text="Lean 4 model of VarLookupDict / Environment.capture / the namespace wiring of "
              "design_matrices and Call.set_type, with 31 theorems for any number of scopes and any "
